@@ -228,6 +228,7 @@ package mobius
 // get-messages carries everything ReadAll returned from the board itself.
 
 //@ func HandleTranOldPostNews(cc *hotline.ClientConn, t *hotline.Transaction) (res []hotline.Transaction)
+//@   property C19
 //@   before call (*hotline.ClientConn).NewReply assert callres("(io.ReadWriteSeeker).Write", 1) == nil
 //@   before call (*hotline.ClientConn).SendAll assert callres("(io.ReadWriteSeeker).Write", 1) == nil
 // the post format has classic line breaks only: what goes to the board (and is announced) is the
@@ -237,6 +238,7 @@ package mobius
 //@   before call hotline.NewField assert bytes(arg1) == bytes(callres("strings.ReplaceAll"))
 
 //@ func HandleGetMsgs(cc *hotline.ClientConn, t *hotline.Transaction) (res []hotline.Transaction)
+//@   property C19
 //@   before call io.ReadAll assert arg0 == cc.Server.MessageBoard
 //@   before call hotline.NewField assert same(arg1, callres("io.ReadAll", 0))
 //@   before call io.ReadAll assert ghost(heldlocks) > 0
@@ -467,6 +469,164 @@ package mobius
 //@   before call hotline.NewField#2 assert arg0[0] == 0 && arg0[1] == 102 && same(arg1, cc.UserName)
 //@   before call hotline.NewField#3 assert arg0[0] == 0 && arg0[1] == 103 && ptsto(arg1, cc.ID) && len(arg1) == 2
 
+// ---------------------------------------------------------------------------------
+// C14: replies are never misdirected.  In every registered handler a reply (success or error) is
+// built on the requester's own connection -- NewReply / NewErrReply copy the request's ID and the
+// receiver's client ID, so a reply built on another connection would reach a client that never
+// sent the request and leave the requester without an answer.
+//@ func HandleChatSend(cc *hotline.ClientConn, t *hotline.Transaction) (res []hotline.Transaction)
+//@   property C14
+//@   before any call (*hotline.ClientConn).NewReply assert arg0 == cc && arg1 == t
+//@   before any call (*hotline.ClientConn).NewErrReply assert arg0 == cc && arg1 == t
+//@ func HandleDelNewsArt(cc *hotline.ClientConn, t *hotline.Transaction) (res []hotline.Transaction)
+//@   property C14
+//@   before any call (*hotline.ClientConn).NewReply assert arg0 == cc && arg1 == t
+//@   before any call (*hotline.ClientConn).NewErrReply assert arg0 == cc && arg1 == t
+//@ func HandleDelNewsItem(cc *hotline.ClientConn, t *hotline.Transaction) (res []hotline.Transaction)
+//@   property C14
+//@   before any call (*hotline.ClientConn).NewReply assert arg0 == cc && arg1 == t
+//@   before any call (*hotline.ClientConn).NewErrReply assert arg0 == cc && arg1 == t
+//@ func HandleDeleteFile(cc *hotline.ClientConn, t *hotline.Transaction) (res []hotline.Transaction)
+//@   property C14
+//@   before any call (*hotline.ClientConn).NewReply assert arg0 == cc && arg1 == t
+//@   before any call (*hotline.ClientConn).NewErrReply assert arg0 == cc && arg1 == t
+//@ func HandleDeleteUser(cc *hotline.ClientConn, t *hotline.Transaction) (res []hotline.Transaction)
+//@   property C14
+//@   before any call (*hotline.ClientConn).NewReply assert arg0 == cc && arg1 == t
+//@   before any call (*hotline.ClientConn).NewErrReply assert arg0 == cc && arg1 == t
+//@ func HandleDisconnectUser(cc *hotline.ClientConn, t *hotline.Transaction) (res []hotline.Transaction)
+//@   property C14
+//@   before any call (*hotline.ClientConn).NewReply assert arg0 == cc && arg1 == t
+//@   before any call (*hotline.ClientConn).NewErrReply assert arg0 == cc && arg1 == t
+//@ func HandleDownloadBanner(cc *hotline.ClientConn, t *hotline.Transaction) (res []hotline.Transaction)
+//@   property C14
+//@   before any call (*hotline.ClientConn).NewReply assert arg0 == cc && arg1 == t
+//@   before any call (*hotline.ClientConn).NewErrReply assert arg0 == cc && arg1 == t
+//@ func HandleDownloadFile(cc *hotline.ClientConn, t *hotline.Transaction) (res []hotline.Transaction)
+//@   property C14
+//@   before any call (*hotline.ClientConn).NewReply assert arg0 == cc && arg1 == t
+//@   before any call (*hotline.ClientConn).NewErrReply assert arg0 == cc && arg1 == t
+//@ func HandleDownloadFolder(cc *hotline.ClientConn, t *hotline.Transaction) (res []hotline.Transaction)
+//@   property C14
+//@   before any call (*hotline.ClientConn).NewReply assert arg0 == cc && arg1 == t
+//@   before any call (*hotline.ClientConn).NewErrReply assert arg0 == cc && arg1 == t
+//@ func HandleGetClientInfoText(cc *hotline.ClientConn, t *hotline.Transaction) (res []hotline.Transaction)
+//@   property C14
+//@   before any call (*hotline.ClientConn).NewReply assert arg0 == cc && arg1 == t
+//@   before any call (*hotline.ClientConn).NewErrReply assert arg0 == cc && arg1 == t
+//@ func HandleGetFileInfo(cc *hotline.ClientConn, t *hotline.Transaction) (res []hotline.Transaction)
+//@   property C14
+//@   before any call (*hotline.ClientConn).NewReply assert arg0 == cc && arg1 == t
+//@   before any call (*hotline.ClientConn).NewErrReply assert arg0 == cc && arg1 == t
+//@ func HandleGetFileNameList(cc *hotline.ClientConn, t *hotline.Transaction) (res []hotline.Transaction)
+//@   property C14
+//@   before any call (*hotline.ClientConn).NewReply assert arg0 == cc && arg1 == t
+//@   before any call (*hotline.ClientConn).NewErrReply assert arg0 == cc && arg1 == t
+//@ func HandleGetMsgs(cc *hotline.ClientConn, t *hotline.Transaction) (res []hotline.Transaction)
+//@   property C14
+//@   before any call (*hotline.ClientConn).NewReply assert arg0 == cc && arg1 == t
+//@   before any call (*hotline.ClientConn).NewErrReply assert arg0 == cc && arg1 == t
+//@ func HandleGetNewsArtData(cc *hotline.ClientConn, t *hotline.Transaction) (res []hotline.Transaction)
+//@   property C14
+//@   before any call (*hotline.ClientConn).NewReply assert arg0 == cc && arg1 == t
+//@   before any call (*hotline.ClientConn).NewErrReply assert arg0 == cc && arg1 == t
+//@ func HandleGetNewsArtNameList(cc *hotline.ClientConn, t *hotline.Transaction) (res []hotline.Transaction)
+//@   property C14
+//@   before any call (*hotline.ClientConn).NewReply assert arg0 == cc && arg1 == t
+//@   before any call (*hotline.ClientConn).NewErrReply assert arg0 == cc && arg1 == t
+//@ func HandleGetNewsCatNameList(cc *hotline.ClientConn, t *hotline.Transaction) (res []hotline.Transaction)
+//@   property C14
+//@   before any call (*hotline.ClientConn).NewReply assert arg0 == cc && arg1 == t
+//@   before any call (*hotline.ClientConn).NewErrReply assert arg0 == cc && arg1 == t
+//@ func HandleGetUser(cc *hotline.ClientConn, t *hotline.Transaction) (res []hotline.Transaction)
+//@   property C14
+//@   before any call (*hotline.ClientConn).NewReply assert arg0 == cc && arg1 == t
+//@   before any call (*hotline.ClientConn).NewErrReply assert arg0 == cc && arg1 == t
+//@ func HandleGetUserNameList(cc *hotline.ClientConn, t *hotline.Transaction) (res []hotline.Transaction)
+//@   property C14
+//@   before any call (*hotline.ClientConn).NewReply assert arg0 == cc && arg1 == t
+//@   before any call (*hotline.ClientConn).NewErrReply assert arg0 == cc && arg1 == t
+//@ func HandleInviteNewChat(cc *hotline.ClientConn, t *hotline.Transaction) (res []hotline.Transaction)
+//@   property C14
+//@   before any call (*hotline.ClientConn).NewReply assert arg0 == cc && arg1 == t
+//@   before any call (*hotline.ClientConn).NewErrReply assert arg0 == cc && arg1 == t
+//@ func HandleInviteToChat(cc *hotline.ClientConn, t *hotline.Transaction) (res []hotline.Transaction)
+//@   property C14
+//@   before any call (*hotline.ClientConn).NewReply assert arg0 == cc && arg1 == t
+//@   before any call (*hotline.ClientConn).NewErrReply assert arg0 == cc && arg1 == t
+//@ func HandleJoinChat(cc *hotline.ClientConn, t *hotline.Transaction) (res []hotline.Transaction)
+//@   property C14
+//@   before any call (*hotline.ClientConn).NewReply assert arg0 == cc && arg1 == t
+//@   before any call (*hotline.ClientConn).NewErrReply assert arg0 == cc && arg1 == t
+//@ func HandleKeepAlive(cc *hotline.ClientConn, t *hotline.Transaction) (res []hotline.Transaction)
+//@   property C14
+//@   before any call (*hotline.ClientConn).NewReply assert arg0 == cc && arg1 == t
+//@   before any call (*hotline.ClientConn).NewErrReply assert arg0 == cc && arg1 == t
+//@ func HandleListUsers(cc *hotline.ClientConn, t *hotline.Transaction) (res []hotline.Transaction)
+//@   property C14
+//@   before any call (*hotline.ClientConn).NewReply assert arg0 == cc && arg1 == t
+//@   before any call (*hotline.ClientConn).NewErrReply assert arg0 == cc && arg1 == t
+//@ func HandleMakeAlias(cc *hotline.ClientConn, t *hotline.Transaction) (res []hotline.Transaction)
+//@   property C14
+//@   before any call (*hotline.ClientConn).NewReply assert arg0 == cc && arg1 == t
+//@   before any call (*hotline.ClientConn).NewErrReply assert arg0 == cc && arg1 == t
+//@ func HandleMoveFile(cc *hotline.ClientConn, t *hotline.Transaction) (res []hotline.Transaction)
+//@   property C14
+//@   before any call (*hotline.ClientConn).NewReply assert arg0 == cc && arg1 == t
+//@   before any call (*hotline.ClientConn).NewErrReply assert arg0 == cc && arg1 == t
+//@ func HandleNewFolder(cc *hotline.ClientConn, t *hotline.Transaction) (res []hotline.Transaction)
+//@   property C14
+//@   before any call (*hotline.ClientConn).NewReply assert arg0 == cc && arg1 == t
+//@   before any call (*hotline.ClientConn).NewErrReply assert arg0 == cc && arg1 == t
+//@ func HandleNewNewsCat(cc *hotline.ClientConn, t *hotline.Transaction) (res []hotline.Transaction)
+//@   property C14
+//@   before any call (*hotline.ClientConn).NewReply assert arg0 == cc && arg1 == t
+//@   before any call (*hotline.ClientConn).NewErrReply assert arg0 == cc && arg1 == t
+//@ func HandleNewNewsFldr(cc *hotline.ClientConn, t *hotline.Transaction) (res []hotline.Transaction)
+//@   property C14
+//@   before any call (*hotline.ClientConn).NewReply assert arg0 == cc && arg1 == t
+//@   before any call (*hotline.ClientConn).NewErrReply assert arg0 == cc && arg1 == t
+//@ func HandleNewUser(cc *hotline.ClientConn, t *hotline.Transaction) (res []hotline.Transaction)
+//@   property C14
+//@   before any call (*hotline.ClientConn).NewReply assert arg0 == cc && arg1 == t
+//@   before any call (*hotline.ClientConn).NewErrReply assert arg0 == cc && arg1 == t
+//@ func HandlePostNewsArt(cc *hotline.ClientConn, t *hotline.Transaction) (res []hotline.Transaction)
+//@   property C14
+//@   before any call (*hotline.ClientConn).NewReply assert arg0 == cc && arg1 == t
+//@   before any call (*hotline.ClientConn).NewErrReply assert arg0 == cc && arg1 == t
+//@ func HandleSendInstantMsg(cc *hotline.ClientConn, t *hotline.Transaction) (res []hotline.Transaction)
+//@   property C14
+//@   before any call (*hotline.ClientConn).NewReply assert arg0 == cc && arg1 == t
+//@   before any call (*hotline.ClientConn).NewErrReply assert arg0 == cc && arg1 == t
+//@ func HandleSetUser(cc *hotline.ClientConn, t *hotline.Transaction) (res []hotline.Transaction)
+//@   property C14
+//@   before any call (*hotline.ClientConn).NewReply assert arg0 == cc && arg1 == t
+//@   before any call (*hotline.ClientConn).NewErrReply assert arg0 == cc && arg1 == t
+//@ func HandleTranAgreed(cc *hotline.ClientConn, t *hotline.Transaction) (res []hotline.Transaction)
+//@   property C14
+//@   before any call (*hotline.ClientConn).NewReply assert arg0 == cc && arg1 == t
+//@   before any call (*hotline.ClientConn).NewErrReply assert arg0 == cc && arg1 == t
+//@ func HandleTranOldPostNews(cc *hotline.ClientConn, t *hotline.Transaction) (res []hotline.Transaction)
+//@   property C14
+//@   before any call (*hotline.ClientConn).NewReply assert arg0 == cc && arg1 == t
+//@   before any call (*hotline.ClientConn).NewErrReply assert arg0 == cc && arg1 == t
+//@ func HandleUpdateUser(cc *hotline.ClientConn, t *hotline.Transaction) (res []hotline.Transaction)
+//@   property C14
+//@   before any call (*hotline.ClientConn).NewReply assert arg0 == cc && arg1 == t
+//@   before any call (*hotline.ClientConn).NewErrReply assert arg0 == cc && arg1 == t
+//@ func HandleUploadFile(cc *hotline.ClientConn, t *hotline.Transaction) (res []hotline.Transaction)
+//@   property C14
+//@   before any call (*hotline.ClientConn).NewReply assert arg0 == cc && arg1 == t
+//@   before any call (*hotline.ClientConn).NewErrReply assert arg0 == cc && arg1 == t
+//@ func HandleUploadFolder(cc *hotline.ClientConn, t *hotline.Transaction) (res []hotline.Transaction)
+//@   property C14
+//@   before any call (*hotline.ClientConn).NewReply assert arg0 == cc && arg1 == t
+//@   before any call (*hotline.ClientConn).NewErrReply assert arg0 == cc && arg1 == t
+//@ func HandleUserBroadcast(cc *hotline.ClientConn, t *hotline.Transaction) (res []hotline.Transaction)
+//@   property C14
+//@   before any call (*hotline.ClientConn).NewReply assert arg0 == cc && arg1 == t
+//@   before any call (*hotline.ClientConn).NewErrReply assert arg0 == cc && arg1 == t
+
 // C20: a threaded-news change is acknowledged (nil error) only after the news file was rewritten --
 // through writeFile, which replaces it atomically -- whatever the change turned out to touch; a
 // change that is only made in memory is lost by the next restart although the client was told it
@@ -542,6 +702,20 @@ package mobius
 // C15 / C16: loading the account files.  Every file the directory scan returns ends up in the table
 // (an iteration either fails the whole load or stores its account), and the loader -- including the
 // migration of the legacy privilege format -- never sets a privilege bit itself.
+
+// C15 / C20: what is loaded as an account is a file whose name ENDS in .yaml; the temporary file
+// of an interrupted save (<login>.yaml.tmp) is never an account, and no account's temporary
+// file is another account's file (writeFileAtomic: the temporary name is the target's name plus
+// ".tmp", written in full and then renamed onto exactly the target).
+//@ func NewYAMLAccountManager(accountDir string) (r *YAMLAccountManager, err error)
+//@   property C15 C16 C20
+//@   before call path/filepath.Glob assert arg0 == callres("path/filepath.Join#1") && len(callarg("path/filepath.Join#1", 0)) == 2 && callarg("path/filepath.Join#1", 0)[0] == accountDir && callarg("path/filepath.Join#1", 0)[1] == "*.yaml"
+//@   before any call os.ReadDir assert false
+//@ func writeFileAtomic(path string, data []byte) (err error)
+//@   property C15 C20
+//@   before call os.WriteFile assert arg0 == strcat(path, ".tmp") && same(arg1, data)
+//@   before call os.Rename assert arg0 == strcat(path, ".tmp") && arg1 == path && callres("os.WriteFile") == nil
+//@   ensures err == nil ==> callres("os.Rename") == nil
 
 //@ func NewYAMLAccountManager(accountDir string) (r *YAMLAccountManager, err error)
 //@   property C15 C16
@@ -641,15 +815,17 @@ package mobius
 // the server stores for the new user -- the name and icon just assigned, its ID and flags -- not
 // values taken from the request.
 
+// (C05 as well: the name that is announced is the stored one -- which the any-name privilege
+// governs --, not the name the request carries)
 //@ func HandleTranAgreed(cc *hotline.ClientConn, t *hotline.Transaction) (res []hotline.Transaction)
-//@   property C13
+//@   property C05 C13
 //@   before call hotline.NewField assert arg0[0] == 0 && arg0[1] == 102 ==> same(arg1, cc.UserName)
 //@   before call hotline.NewField assert arg0[0] == 0 && arg0[1] == 104 ==> same(arg1, cc.Icon)
 //@   before call hotline.NewField assert arg0[0] == 0 && arg0[1] == 103 ==> ptsto(arg1, cc.ID) && len(arg1) == 2
 //@   before call hotline.NewField assert arg0[0] == 0 && arg0[1] == 112 ==> ptsto(arg1, cc.Flags) && len(arg1) == 2
 
 //@ func HandleSetClientUserInfo(cc *hotline.ClientConn, t *hotline.Transaction) (res []hotline.Transaction)
-//@   property C13
+//@   property C05 C13
 //@   before call hotline.NewField assert arg0[0] == 0 && arg0[1] == 102 ==> same(arg1, cc.UserName)
 //@   before call hotline.NewField assert arg0[0] == 0 && arg0[1] == 104 ==> same(arg1, cc.Icon)
 //@   before call hotline.NewField assert arg0[0] == 0 && arg0[1] == 103 ==> ptsto(arg1, cc.ID) && len(arg1) == 2
